@@ -9,9 +9,30 @@ NUM_RE = re.compile(r"([~^][0-9.]+)")
 PLAIN_NUM = re.compile(r"^[0-9]+(\.[0-9]+)?$")
 
 
-def impl_parse(q, entry="module"):
-    """-> {"ok": tree json} | {"err": [class, message]} (any exception class is reported)"""
+REFUSED = ["[10 90]", "price:[10 90]", "f:[a b]", "{1 2}", "[a TO", "f:[1 TO 2", "f:{1", "[", "(a b", "(a OR", "((a)",
+           "a AND", "a OR", "NOT", "f:", "f:(a", "f:(a AND", '"abc', "/re", "+", "-", "a:b:", "a AND AND b", "a )",
+           "[1 TO 2 3]", "a^ ^", "< ", ">=", "f:[* TO", "[a TO b", "x [1 2] y", "(a [b c)", "   ", "\t", " \n'", "  \\",
+           " )", "\r\n^2"]
+_hist_rng = __import__("random").Random(int(__import__("os").environ.get("VERIF_SEED", "0") or 0) + 7717)
+HISTORY = {"refused inputs parsed just before another parse": 0}
+
+
+def impl_parse(q, entry="module", history=True):
+    """-> {"ok": tree json} | {"err": [class, message]} (any exception class is reported).
+    history: now and then an input that is refused (before its first element, or in the middle of a construct) goes
+    through the same entry point just before -- whatever a parse that gave up leaves behind (a mode of the lexer,
+    pending blanks, a flag) must not reach the next parse, wherever in a check that next parse happens (seeded C13-G,
+    C17-F: the parse of a PRINTED form right after a refused input)"""
     I = common.impl()
+    if history and _hist_rng.random() < 0.04:
+        HISTORY["refused inputs parsed just before another parse"] += 1
+        try:
+            if entry == "thread":
+                I.thread.parse(_hist_rng.choice(REFUSED))
+            else:
+                I.parser.parser.parse(_hist_rng.choice(REFUSED), lexer=I.parser.lexer)
+        except Exception:  # noqa
+            pass
     try:
         if entry == "thread":
             t = I.thread.parse(q)
